@@ -1280,7 +1280,7 @@ Section Pipe.
   Qed.
 End Pipe.
 
-(** the code before the repair 572c88a ran the future for HEAD too: the streamed bytes follow the head of the HEAD answer
+(** the code before the repair d63bba7 ran the future for HEAD too: the streamed bytes follow the head of the HEAD answer
     — stray bytes on the HTTP/1 connection, DATA the h2 client refuses on the HTTP/2 stream *)
 Lemma head_stream_v0_refuted_lemma : exists r cs n,
   fut_framed r (Some (cs, Some n)) /\
@@ -1384,7 +1384,7 @@ Proof.
   split; [reflexivity|]. split; [reflexivity|]. vm_compute. discriminate.
 Qed.
 
-(** [extensions::stream_body] (repaired, 7cbe1e5): the length it announces is the number of bytes its future writes *)
+(** [extensions::stream_body] (repaired, d675f8a): the length it announces is the number of bytes its future writes *)
 Lemma stream_plan_framed_lemma file a c :
   match stream_plan true file (Some (a, c)) with Some (b, n) => n = N.of_nat (length b) | None => True end /\
   match stream_plan true file None with Some (b, n) => n = N.of_nat (length b) /\ b = file | None => False end.
